@@ -26,6 +26,11 @@ EXTRA = [
     'int f(int x,int y,int n){ int i; if (x < y) { for (i = 0; i < n; i++) { while (y < 3) { y = y + x; } } } else while (x < 1) x = x + y; }',
     'int f(int x){ { { while (x < 1) { x = x + 1; } } } } int g(int y){ do { y = y + 1; } while (y < 2); }',
     'int f(int x,int y){ typedef int T; while (x < y) { x = x + 1; } }',
+    'int f(int x,int y){ do while (y < 2) { y = y + 1; } while (x < 3); }',
+    'int f(int x,int y){ while (x < 3) while (y < 2) y = y + x; }',
+    'int f(int x,int y,int n){ int i; for (i = 0; i < n; i++) do x = x + y; while (x < 9); }',
+    'int f(int x,int y){ if (x < y) do { while (y < 2) y = y + 1; } while (x < 1); else while (x < 2) x = x + 1; }',
+    'int f(int x,int y){ do do x = x + 1; while (x < 2); while (y < 3); }',
 ]
 
 TEXTS = [
